@@ -75,6 +75,7 @@ class Run:
         self.sc = scenario
         self.sb = Sandbox(tuple(scenario.get('cache', ['k'])), parent=parent_dir,
                           key=scenario.get('sandbox_key') or scenario.get('id'))
+        self.sb.alias_pins = bool(scenario.get('alias_pins'))
         self.events = []
         self.exc_n = 0
         self.build_no = 0
